@@ -46,6 +46,9 @@ CLAIMED = {
  'C14': dict(
   text="On the MIR of detect_validators, the seven detect impls and the DETECTOR_FACTORIES table: for blocks carrying every subset of a task's three validators' attributes (symbolic), every subset of those names in -d or in -e (symbolic membership), 1-3 blocks over 1-2 files and several map orders, the instantiated validators are exactly those allowed and needed, each once, filed as sync/async correctly. parse_validator accepts exactly the seven names (every string up to 12-13 bytes over their letters); Args::validate rejects -d together with -e.",
   note="Triples of validators instead of all seven at once (all 35 triples in the thorough tier). clap is not encoded; OpenAiClient::new_from_env is a stub; that each validator emits only its own code is asserted in C06-C10."),
+ 'C13': dict(
+  text="For every value (symbolic bytes, up to N) of keep-sorted, keep-sorted-format, affects and severity, every key text under numeric sort, a menu of uncompilable regexes for the three regex attributes, and short/overflowing line-count expressions, with the bad block placed before/after healthy blocks: Z3 shows on the validators' MIR that a value outside the attribute's accepted language (written as a formula over the bytes) makes validate return Err, a value inside does not, and through validators::run the Err of one validator among healthy ones is the result of the run.",
+  note="Don't-care: values that trim to a valid word but carry surrounding blanks. Regex compilation comes from the reference model, not the regex crate. Outside: Lua/AI malformations (async), the exit code of the process itself."),
 }
 
 NOT_APPLICABLE = {
